@@ -30,7 +30,13 @@ def main(argv):
     try:
         mod = __import__(ENGINE[pid])
         if "--replay" in args:
+            import tempfile
+            common.EVID = tempfile.mkdtemp(prefix="replay-", dir=os.path.join(common.VERIF, ".work") if os.path.isdir(os.path.join(common.VERIF, ".work")) else None)
+            common.REPLAYS = os.path.join(common.EVID, "replays")      # a replay never rewrites evidence/<id>.json
             return mod.replay(pid, args[args.index("--replay") + 1])
+        if "--selftest" in args:
+            import selftest
+            return selftest.run(pid)
         return mod.run(pid, tier, seed)
     except (common.Machinery,) as exc:
         print(f"MACHINERY-FAILURE property={pid}: {exc}")
